@@ -328,6 +328,14 @@ prop(
         dict(what="exhaust:Ietf", len=(1 << 38) + 1, timeout=20),
         dict(what="cipher:ChaCha8", len=3 * (1 << 30) + 77, pre=70, tiers=("thorough",)),
         dict(what="cipher:ChaCha12", len=4 * (1 << 30), pre=10, tiers=("thorough",)),
+        # single calls over more bytes than there is memory (the slice is one 64 MiB object mapped back to back): the 64-bit-counter
+        # variants serve more than 2^38 bytes in one call - quick only watches that the call is not refused (it is stopped after 4 s),
+        # thorough lets it finish (256 GiB) and compares with the same keystream XORed window by window
+        dict(what="accept:ChaCha8", len=(1 << 38) + 4096, accept_after=4),
+        dict(what="accept:XChaCha20", len=(1 << 38) + (1 << 32) + 77, pre=5, accept_after=4),
+        dict(what="alias:ChaCha20", len=8 * (1 << 30) + 300, pre=3),
+        dict(what="alias:ChaCha8", len=(1 << 38) + 4096, tiers=("thorough",), timeout=3000),
+        dict(what="alias:XChaCha12", len=33 * (1 << 30) + 65, pre=1, tiers=("thorough",), timeout=3000),
         dict(what="cipher:Ietf", len=4 * (1 << 30) + 1, pre=63, tiers=("thorough",)),
     ],
 )
@@ -363,6 +371,9 @@ prop(
         dict(what="exhaust:Ietf", len=(1 << 38) - 63, seek=64, timeout=20),
         dict(what="exhaust:Ietf", len=(1 << 38), pre=10, timeout=20),
         dict(what="exhaust:Ietf", len=(1 << 38) + (1 << 32), seek=0, pre=0, timeout=20),
+        # ... while the same request to a 64-bit-counter variant is far from its end and must not be refused
+        dict(what="accept:ChaCha12", len=(1 << 38) + 1, accept_after=4),
+        dict(what="accept:XChaCha8", len=(1 << 38) + 64, pre=10, accept_after=4),
     ],
 )
 
@@ -464,6 +475,17 @@ prop(
         ("Skein512_64", 4096 * (1 << 20), ("thorough",), False, dict(oneshot=True)),
         ("Skein1024_128", 4096 * (1 << 20), ("thorough",), False, dict(oneshot=True)),
         ("Blake224", 512 * (1 << 20), ("thorough",), False, dict(oneshot=True, profile="checked")),
+    ],
+    # one update call of 32 GiB and more (2^31 128-bit words, 2^32 64-byte blocks ...) of never-written zero pages against the
+    # same bytes in 1 MiB-3 pieces
+    huge=[
+        dict(what="hash:Groestl256", len=8 * (1 << 30) + 200, tiers=("quick",)),
+        dict(what="hash:Groestl256", len=32 * (1 << 30) + 200, tiers=("thorough",), timeout=3000),
+        dict(what="hash:Groestl512", len=32 * (1 << 30) + 129, pre=7, tiers=("thorough",), timeout=3000),
+        dict(what="hash:Blake256", len=32 * (1 << 30) + 65, tiers=("thorough",), timeout=3000),
+        dict(what="hash:Jh256", len=32 * (1 << 30) + 64, pre=1, tiers=("thorough",), timeout=3000),
+        dict(what="hash:Skein512_64", len=32 * (1 << 30) + 1, tiers=("thorough",), timeout=3000),
+        dict(what="hash:Groestl224", len=256 * (1 << 30) + 64, tiers=("thorough",), timeout=6000),
     ],
 )
 
@@ -707,6 +729,7 @@ def run_property(pid, tier):
             else:
                 others.append(f)
 
+    huge_procs = start_huge(spec["huge"], tier) if spec.get("huge") else []
     for leg in spec["legs"]:
         if tier not in leg.tiers or harness_error:
             continue
@@ -778,7 +801,7 @@ def run_property(pid, tier):
     huge_results = []
     if spec.get("huge") and not harness_error:
         try:
-            run_huge(pid, spec["huge"], tier, sd, replay_dir, huge_results, violations, known)
+            collect_huge(pid, huge_procs, replay_dir, huge_results, violations, known)
         except HarnessError as e:
             harness_error = str(e)
     stream_results = []
@@ -1299,6 +1322,12 @@ def run_memcheck(pid, spec_mc, tier, sd, replay_dir, results, violations, known)
 def run_huge(pid, entries, tier, sd, replay_dir, results, violations, known):
     """Single calls with slices of 2 GiB / 4 GiB / more than the whole keystream: lengths no sweep can afford.
     Each runs in its own process (a fault kills only that process; a watchdog catches a call that should have been refused at once)."""
+    procs = start_huge(entries, tier)
+    collect_huge(pid, procs, replay_dir, results, violations, known)
+
+
+def start_huge(entries, tier):
+    """start the huge single calls (one process each); they run while the legs do"""
     binary = build("std", "release")
     procs = []
     for e in entries:
@@ -1308,11 +1337,26 @@ def run_huge(pid, entries, tier, sd, replay_dir, results, violations, known):
         if "seek" in e:
             a += ["--seek", str(e["seek"])]
         procs.append((e, a, subprocess.Popen(a, stdout=subprocess.PIPE, stderr=subprocess.PIPE, text=True), time.time()))
+    return procs
+
+
+def collect_huge(pid, procs, replay_dir, results, violations, known):
     for e, a, p, t0 in procs:
-        timeout = e.get("timeout", 600)
+        timeout = e.get("timeout", 1800)
+        accept_after = e.get("accept_after")  # acceptance probe: still running after that many seconds = accepted
         try:
-            so, se = p.communicate(timeout=max(1, timeout - (time.time() - t0)))
-            rc = p.returncode
+            if accept_after is not None:
+                try:
+                    so, se = p.communicate(timeout=max(0.1, accept_after - (time.time() - t0)))
+                    rc = p.returncode
+                except subprocess.TimeoutExpired:
+                    p.kill()
+                    so, se = p.communicate()
+                    rc = 0
+                    so = json.dumps(dict(ok=True, detail="accepted: still working after %.0f s (stopped by the driver)" % accept_after))
+            else:
+                so, se = p.communicate(timeout=max(1, timeout - (time.time() - t0)))
+                rc = p.returncode
         except subprocess.TimeoutExpired:
             p.kill()
             so, se = p.communicate()
@@ -1331,7 +1375,8 @@ def run_huge(pid, entries, tier, sd, replay_dir, results, violations, known):
         if rc == "timeout":
             what = "not refused at once (watchdog)" if e["what"].startswith("exhaust") else "does not finish"
         elif rc == 1:
-            what = "not refused / not atomic" if e["what"].startswith("exhaust") else "refill4 differs from four refills" if e["what"].startswith("rounds") else "result differs from the same bytes in pieces"
+            what = ("not refused / not atomic" if e["what"].startswith("exhaust") else "refill4 differs from four refills" if e["what"].startswith("rounds")
+                    else "a request the keystream can serve is refused" if e["what"].startswith("accept") else "result differs from the same bytes in pieces")
         elif rc == 99 or (isinstance(rc, int) and rc < 0):
             what = "process killed by a memory fault"
         elif rc == 101:
@@ -1340,7 +1385,7 @@ def run_huge(pid, entries, tier, sd, replay_dir, results, violations, known):
             log(se[-1500:])
             raise HarnessError("huge call %s failed rc=%s" % (label, rc))
         sig = "huge single call:%s:%s" % (e["what"], what)
-        f = dict(kind="huge", argv=a[1:], timeout=timeout, ops=[label], minimised_from=1,
+        f = dict(kind="huge", argv=a[1:], timeout=timeout, accept_after=accept_after, ops=[label], minimised_from=1,
                  violation=dict(properties=[pid], invariant="G1", signature=sig, at_op=0, detail="%s: %s %s" % (label, what, (out or {}).get("detail", "") or se[-300:])))
         import re as _re
         path = os.path.join(replay_dir, "%s-huge-%s.json" % (pid, _re.sub(r"[^A-Za-z0-9_]+", "_", label)))
@@ -1595,10 +1640,10 @@ def replay(pid, path):
     if j.get("kind") == "huge":
         a = [build("std", "release")] + j["argv"]
         try:
-            p = subprocess.run(a, stdout=subprocess.PIPE, stderr=subprocess.PIPE, text=True, timeout=j.get("timeout", 600))
+            p = subprocess.run(a, stdout=subprocess.PIPE, stderr=subprocess.PIPE, text=True, timeout=j.get("accept_after") or j.get("timeout", 600))
             rc = p.returncode
         except subprocess.TimeoutExpired:
-            rc = "timeout"
+            rc = 0 if j.get("accept_after") else "timeout"
         if rc != 0:
             kf = open_finding_for(pid, j["violation"]["signature"])
             if kf:
